@@ -85,7 +85,7 @@ Inductive presult :=
 | PBadCount          (* strconv error *)
 | PBadLock           (* "Could not parse lock hash" *)
 | PBadGcGen          (* "Could not parse GC generation hash" *)
-| PPanic.            (* malformed root: rejected last — hash.Parse(root) panics; a tree that reports "Could not parse root hash" instead is the same outcome here *)
+| PBadRoot.          (* "Could not parse root hash" (hash.MaybeParse on the root; checked last) *)
 
 (* parseManifest: version prefix, at most 8 one-byte reads *)
 Inductive vresult := VOk (v rest : bytes) | VEof | VCorrupt.
@@ -132,7 +132,7 @@ Definition parse_v5 (rest : bytes) : presult :=
       | Some l => match maybe_parse gg with
                   | None => PBadGcGen
                   | Some g => match maybe_parse rt with
-                              | None => PPanic
+                              | None => PBadRoot
                               | Some r => POk {| m_vers := c05_storage_version; m_nbf := nbf; m_lock := l; m_root := r;
                                                  m_gcgen := g; m_specs := ss; m_appendix := [] |}
                               end
@@ -154,7 +154,7 @@ Definition parse_v4 (rest : bytes) : presult :=
       match maybe_parse lk with
       | None => PBadLock
       | Some l => match maybe_parse rt with
-                  | None => PPanic
+                  | None => PBadRoot
                   | Some r => POk {| m_vers := c05_storage_version4; m_nbf := nbf; m_lock := l; m_root := r;
                                      m_gcgen := zero_hash; m_specs := ss; m_appendix := [] |}
                   end
@@ -551,3 +551,23 @@ Definition sys_step_r (st : sys) (a : step) : sys * N * hash :=
   end.
 
 Definition sys_step (st : sys) (a : step) : sys := fst (fst (sys_step_r st a)).
+
+(* ------------------------------------------------------------------ *)
+(* conjoiner.go conjoinOperation.updateManifest: the contents it proposes *)
+(* ------------------------------------------------------------------ *)
+(* canApply: every conjoinee is still in upstream.specs *)
+Definition conj_can_apply (up : manifest) (cj : list hash) : bool :=
+  forallb (fun h => mem_hash h (map sp_name (m_specs up))) cj.
+(* newSpecs: upstream.specs without the conjoinees, the conjoined table inserted right after position
+   len(upstream.appendix).  (The Go slice has a fixed length len(specs) - |conjoinees| + 1; it coincides with
+   this list when spec names are distinct and the appendix is shorter than specs — always so for a manifest
+   read from a file, whose appendix is empty.) *)
+Fixpoint conj_loop (specs : list spec) (i na : nat) (cj : list hash) (c : spec) : list spec :=
+  match specs with
+  | [] => []
+  | s :: r => (if mem_hash (sp_name s) cj then [] else [s]) ++ (if Nat.eqb i na then [c] else []) ++ conj_loop r (S i) na cj c
+  end.
+(* the lock (generateLockHash: SHA-512 of root and names) is supplied by the caller *)
+Definition conjoin_new (up : manifest) (cj : list hash) (c : spec) (lock : hash) : manifest :=
+  {| m_vers := []; m_nbf := m_nbf up; m_lock := lock; m_root := m_root up; m_gcgen := m_gcgen up;
+     m_specs := conj_loop (m_specs up) 0 (length (m_appendix up)) cj c; m_appendix := m_appendix up |}.
